@@ -26,6 +26,22 @@ type simTimer struct {
 	at  time.Time
 	seq int
 	ch  chan time.Time
+	tag string
+}
+
+// taggedClock is a view of a SimClock whose timers carry a tag, so that the
+// simulator can tell the registry's own timers (MPP hold timeouts, handled by
+// the event loop without the registry lock) from the expiry watcher's.
+type taggedClock struct {
+	c   *SimClock
+	tag string
+}
+
+var _ clock.Clock = taggedClock{}
+
+func (t taggedClock) Now() time.Time { return t.c.Now() }
+func (t taggedClock) TickAfter(d time.Duration) <-chan time.Time {
+	return t.c.tickAfter(d, t.tag)
 }
 
 var _ clock.Clock = (*SimClock)(nil)
@@ -39,6 +55,10 @@ func (c *SimClock) Now() time.Time {
 }
 
 func (c *SimClock) TickAfter(d time.Duration) <-chan time.Time {
+	return c.tickAfter(d, "")
+}
+
+func (c *SimClock) tickAfter(d time.Duration, tag string) <-chan time.Time {
 	c.mu.Lock()
 	defer c.mu.Unlock()
 	ch := make(chan time.Time, 1)
@@ -52,11 +72,11 @@ func (c *SimClock) TickAfter(d time.Duration) <-chan time.Time {
 		return ch
 	}
 	c.seq++
-	c.pending = append(c.pending, &simTimer{at: c.now.Add(d), seq: c.seq, ch: ch})
+	c.pending = append(c.pending, &simTimer{at: c.now.Add(d), seq: c.seq, ch: ch, tag: tag})
 	return ch
 }
 
-func (c *SimClock) popDue(limit time.Time) *simTimer {
+func (c *SimClock) popDue(limit time.Time, only string) *simTimer {
 	c.mu.Lock()
 	defer c.mu.Unlock()
 	if len(c.pending) == 0 {
@@ -68,11 +88,24 @@ func (c *SimClock) popDue(limit time.Time) *simTimer {
 		}
 		return c.pending[i].seq < c.pending[j].seq
 	})
-	t := c.pending[0]
+	at := 0
+	if only != "" {
+		at = -1
+		for i, t := range c.pending {
+			if t.tag == only {
+				at = i
+				break
+			}
+		}
+		if at < 0 {
+			return nil
+		}
+	}
+	t := c.pending[at]
 	if t.at.After(limit) {
 		return nil
 	}
-	c.pending = c.pending[1:]
+	c.pending = append(c.pending[:at:at], c.pending[at+1:]...)
 	// The watcher only cancels when expiry is strictly before Now(); a real
 	// clock has always moved on a little by the time the tick is handled.
 	n := t.at.Add(time.Nanosecond)
@@ -86,9 +119,20 @@ func (c *SimClock) popDue(limit time.Time) *simTimer {
 // waiting for the bubble to become quiescent after each. It returns the number
 // of timers fired.
 func (c *SimClock) AdvanceTo(target time.Time) int {
+	return c.advanceTo(target, "")
+}
+
+// AdvanceOnly is AdvanceTo restricted to the timers carrying tag; timers of
+// other owners that come due stay pending and fire late, at the next
+// AdvanceTo.
+func (c *SimClock) AdvanceOnly(target time.Time, tag string) int {
+	return c.advanceTo(target, tag)
+}
+
+func (c *SimClock) advanceTo(target time.Time, only string) int {
 	fired := 0
 	for {
-		t := c.popDue(target)
+		t := c.popDue(target, only)
 		if t == nil {
 			break
 		}
